@@ -3,13 +3,36 @@
 import json, os
 V = os.path.dirname(os.path.dirname(os.path.abspath(__file__)))
 props = [json.loads(l) for l in open(os.path.join(V, 'properties.jsonl'))]
+T2T = 'Lean 4 theorems over a hand-written model of the whole filter + translated tables; token-level correspondence (differential) of model and /repo on every run; '
 CLAIMED = {
- 'C01': ('4 C01', 'Lean theorems (all inputs): get_txt_pos builds text/map in lock step and in range if its tokens are; scanner, error mark, blank-line removal, multi-language splitter, phrase replacement preserve lengths and ranges (C01_*; C01_pipeline_partial composes them). The remaining hypothesis (tokens emitted by the macro expander are in range) is not yet a theorem: it is checked on the implementation (oracle 1<=p<=len on every part, incl. CLI --nums) over G-doc/G-edge/G-mut/G-soup inputs.',
-         'Lean 4 theorems over a hand-written model + translated tables; correspondence (differential) check of scanner/get_txt_pos/blank-line removal/latex_error/get_txt_pos_ml against /repo; direct oracle on tex2txt'),
- 'C07': ('4 C07', 'Lean theorems: the scanner, blank-line removal and the language splitter terminate and never exhaust their measure (C07_*); totality of the expander itself is checked on the implementation with prefixes, token deletions, token soup and truncated argument shapes of every built-in macro.',
-         'Lean 4 totality/progress theorems for the non-expander stages + malformed-input streams on the implementation'),
+ 'C01': ('4 C01', 'Lean theorem C01_tex2txt(_current): for the whole filter model (scanner, macro expander with all handlers and bundled packages, maths parser, blank-line removal, detached flows, phrase replacement, multi-language splitter), every source, option record, file system and fuel: equal lengths and 1<=p<=len(source) (induction on fuel over the mutual block; ghost hypothesis foreign=false reported per run). Table facts decided by the kernel on the tables translated from /repo (Generated/WF.lean). The model is tied to the code by token-level correspondence on G-doc/G-edge/G-mut/G-soup inputs; the same inputs are judged by the direct oracle incl. CLI --nums.',
+         T2T + 'direct oracle on tex2txt and the CLI'),
+ 'C02': ('4 C02', 'Lean theorems: scanner tokens are literal slices at their own offset (also \\verb/verbatim content), get_txt_pos maps a position-counting token to pos+i, blank-line removal never changes a visible character or its position. The literal-slice property of tokens emitted by the expander is checked on the implementation (final token list + unique words of generated documents at the offsets the generator recorded) and by correspondence with the model.',
+         T2T + 'word-offset oracle from the document generator'),
+ 'C03': ('4 C03', 'Lean theorem C03_kinds (corollary of the fuel induction): no control-sequence/begin/end/item/special/accent/verbatim/maths-class token ever reaches the output of parser_work, for all inputs; blank-line removal emits only text/language tokens. Word conservation (multiplicity, order, flows last, hidden text absent) is checked against a TeX-substitution reference semantics of generated documents; heading double expansion is a recorded known finding.',
+         T2T + 'reference semantics oracle on generated AST documents'),
+ 'C04': ('4 C04', 'Lean lemmas: error marks start at the problem position, re-stamped body tokens are fixed at the anchor, all generated tokens are in range (C01 bundle). The span claim (generated text maps into a use of its construct, also for repeated uses) is checked on the implementation with generated documents incl. repeated uses of one definition, and by token-level correspondence with the value-semantics model (catches shared mutable tokens).',
+         T2T + 'span oracle from the document generator'),
+ 'C05': ('4 C05', 'Lean theorems on the model of remove_pure_action_lines (all token lists): identity without Action tokens, visible characters and their positions unchanged, output text is the input with white space deleted; scanner: >=2 line breaks = paragraph token. The layout relation glued / same paragraph / blank line between adjacent surviving words is checked against a TeX-style reading of generated separators.',
+         T2T + 'layout-relation oracle'),
+ 'C06': ('4 C06', 'Lean theorems: longest match at every offset, ordinary characters are one-character text tokens, the documented table entries are present in the table translated from /repo (decide). The end-to-end fixed point / replacement is checked exhaustively on short strings and on random prose against an independent reference.',
+         T2T + 'exhaustive short strings + reference longest-match'),
+ 'C07': ('4 C07', 'Lean theorems: scanner, blank-line removal and language splitter terminate and never exhaust their measure. Absence of unhandled exceptions in the expander is checked on the implementation (prefixes, token deletions, token soup, truncated argument shapes of every built-in macro) and by outcome correspondence with the model, in which every Python exception site is an explicit crash value.',
+         T2T + 'malformed-input streams on the implementation'),
+ 'C08': ('4 C08', 'Lean theorems: latex_error returns the complete mark, fixed, first token at the problem position, in range also at the end of the text; line/column arithmetic; the scanner passes the complete mark on. Diagnostic position, mark position and conservation of later text are checked by fault injection; silence on well-formed generated documents.',
+         T2T + 'fault injection'),
+ 'C09': ('4 C09', 'Lean lemmas: table update on definition (later look-ups see the new entry, other names unchanged), #k selects the k-th argument, empty body. Substitution semantics, use-before-definition, redefinition and the equivalence of the three supply routes are checked against the AST reference and cross-run relations.',
+         T2T + 'metamorphic route comparison + reference semantics'),
+ 'C10': ('4 C10', 'Lean lemmas: rotation by one keeps length/elements and advances the head, detect_math_parts partitions; all formula tokens are output-class and in range (bundle). The rendering of every formula (blank, placeholder k mod len, punctuation, blank) is checked by counting on generated documents in en/de/ru.',
+         T2T + 'counting oracle'),
+ 'C11': ('4 C11', 'Lean lemmas as C10 plus C11_display_tokens (bundle): everything an equation contributes is output-class and in range. The rewriting scheme is checked against a transcription of the README rules for every generated equation (all equation environments, en/de/ru, simple mode).',
+         T2T + 'README-scheme reference'),
+ 'C12': ('4 C12', 'Lean theorems on the model of get_txt_pos_ml (all token lists): sectioning conserves text/positions, language stack = reference stack, parts have equal lengths and positions from the token stream, languages unique, never raises, language tokens survive blank-line removal. Word-to-language assignment and the relation to the single-language run are checked against an AST reference.',
+         T2T + 'language-assignment oracle'),
  'C13': ('4 C13', 'Lean theorems for all texts, position lists (also non-monotonic), rule lists: substitute equals the per-index specification (C13_substitute_spec), positions stay within the input positions, the matcher yields disjoint increasing spans, respects word boundaries and never crosses a paragraph break, comment/no-lhs lines are ignored. The hand-written matcher is tied to Python re by correspondence on every run.',
          'Lean 4 proof (refinement to a per-index specification) + correspondence of model and utils.replace_phrases/substitute + independent reference matcher'),
+ 'C19': ('4 C19', 'Lean theorems: the only writer of the unknowns list appends a name iff it is not in maths mode and not yet listed (no duplicates, order of first use, maths uses ignored). Completeness and exclusion of declared names are checked against the AST reference with --unkn.',
+         T2T + 'reference unknowns list from the AST'),
 }
 LEVEL_NOTE = ('Trusted: Lean kernel (axioms propext, Classical.choice, Quot.sound only, audited per theorem each run); translator gen_tables.py; '
               'the hand-written model is validated against /repo by seeded differential testing, not proved; Python re/str semantics as in /venv.')
